@@ -35,7 +35,7 @@ func init() {
 		CaseTimeout: 120 * time.Second,
 		Run:         runC19,
 		Floors: func(tier string) map[string]int {
-			return map[string]int{"requests": 1500, "reads_with_cookie_forwarded": 60, "reads_timed_out_504": 30, "replica_writes_redirected": 100, "no_primary_503": 20,
+			return map[string]int{"requests": 1500, "reads_with_cookie_forwarded": 60, "reads_timed_out_504": 15, "replica_writes_redirected": 100, "no_primary_503": 20,
 				"primary_write_cookies": 60, "parked_then_released": 10, "passthrough_forwarded": 60, "absent_db_requests": 20, "requests_with_query": 200}
 		},
 	})
